@@ -59,7 +59,9 @@ EXTRA = "model %(n)s\n  parameter Real e = %(v)s;\nend %(n)s;\n"
 BROKEN = "model %(n)s\n  extends Nope;\nend %(n)s;\n"
 
 
-def text(folder, fid, cid):
+def text(key):
+    """key = (folder, file id, content id) of the path the content was WRITTEN to (a rename moves it)"""
+    folder, fid, cid = key
     rel, kind = FILES[(folder, fid)]
     name = {"main": "Main", "base": "Base"}.get(kind) or os.path.basename(rel)[:-3]
     if cid == 0:
@@ -146,9 +148,29 @@ def replay(api, root, case):
         p = os.path.join(dirs[folder], FILES[(folder, fid)][0])
         os.makedirs(os.path.dirname(p), exist_ok=True)
         with open(p, "w") as f:
-            f.write(text(folder, fid, cid))
+            f.write(text((folder, fid, cid)))
         os.utime(p, (mtime, mtime))
-        present[(folder, fid)] = cid
+        present[(folder, fid)] = (folder, fid, cid)
+
+    def path_of(folder, fid):
+        return os.path.join(dirs[folder], FILES[(folder, fid)][0])
+
+    def sync_library_os():
+        """SetOS is played on the cache file: os.name cannot change in this process, so the file's
+        library_os field is made foreign exactly when the logical platform differs from the one the
+        cache file was written on (same outcome of `db["library_os"] != os.name`); mtime preserved"""
+        want = osst["cache"] is not None and osst["cache"] != osst["cur"]
+        if osst["cache"] is None or not os.path.exists(cache_file) or want == osst["foreign"]:
+            return
+        import pickle
+        st = os.stat(cache_file)
+        with open(cache_file, "rb") as f:
+            db = pickle.load(f)
+        db["library_os"] = "foreign-os" if want else os.name
+        with open(cache_file, "wb") as f:
+            pickle.dump(db, f, protocol=-1)
+        os.utime(cache_file, ns=(st.st_atime_ns, st.st_mtime_ns))
+        osst["foreign"] = want
 
     def real_opts(o):
         o = dict(o)
@@ -162,6 +184,7 @@ def replay(api, root, case):
     ver = case["ver0"]
     cache_file = os.path.join(dirs[0], "Main.pymoca_cache")
     calls = []
+    osst = {"cur": 0, "cache": None, "foreign": False}
 
     def reference(o):
         """fresh compile of the current sources with the current options, cache disabled"""
@@ -171,7 +194,7 @@ def replay(api, root, case):
         ro["codegen"] = False
         if cached:
             ro["expand_mx"] = True      # caching implies expanding to SX (api.py:512-514)
-        key = json.dumps([sorted([k[0], k[1], c] for k, c in present.items()), sorted(ro.items()), ver],
+        key = json.dumps([sorted([k[0], k[1], list(c)] for k, c in present.items()), sorted(ro.items()), ver],
                          sort_keys=True, default=str)
         if key not in _memo:
             _state["quiet"] = True
@@ -192,12 +215,23 @@ def replay(api, root, case):
             with open(p, "w") as f:
                 f.write("// not a Modelica source\n")
             os.utime(p, (op[3], op[3]))
+        elif kind == "delete":
+            os.remove(path_of(op[1], op[2]))
+            present.pop((op[1], op[2]))
+        elif kind == "rename":      # os.rename keeps the mtime
+            dst = path_of(op[3], op[4])
+            os.makedirs(os.path.dirname(dst), exist_ok=True)
+            os.rename(path_of(op[1], op[2]), dst)
+            present[(op[3], op[4])] = present.pop((op[1], op[2]))
+        elif kind == "os":
+            osst["cur"] = op[1]
         elif kind == "opts":
             opts = dict(op[1])
         elif kind == "ver":
             ver = op[1]
         elif kind == "transfer":
             api.__version__ = version_string(ver)
+            sync_library_os()
             c0, s0 = _state["calls"], _state["saves"]
             rec = {"exc": None, "fp": None}
             try:
@@ -206,9 +240,11 @@ def replay(api, root, case):
                 rec["exc"] = type(e).__name__
                 rec["msg"] = str(e)[:160].replace(root, "<root>")
             rec["from_cache"] = _state["calls"] == c0
+            rec["cache_foreign"] = bool(osst["foreign"])     # the cache file in place says "other platform"
             rec["saved"] = _state["saves"] != s0
             if rec["saved"]:
                 os.utime(cache_file, (op[1], op[1]))
+                osst["cache"], osst["foreign"] = osst["cur"], False
             rec["ref_exc"], rec["ref_fp"] = reference(opts)
             calls.append(rec)
         else:
